@@ -4,9 +4,85 @@ import (
 	"fmt"
 	"strings"
 
+	"github.com/llir/llvm/ir"
+	"github.com/llir/llvm/ir/constant"
+	"github.com/llir/llvm/ir/types"
+
 	"verif/fw"
 	"verif/llcanon"
 )
+
+// c08ehBuild constructs the funclet through the public API (unnamed values left unnamed).
+func c08ehBuild(s c08ehShape) *ir.Module {
+	m := ir.NewModule()
+	vf := m.NewFunc("vf", types.Void)
+	pers := m.NewFunc("__CxxFrameHandler3", types.I32)
+	pers.Sig.Variadic = true
+	nm := func(named bool, name string) string {
+		if named {
+			return name
+		}
+		return ""
+	}
+	p := ir.NewParam(nm(s.Param, "p"), types.I32)
+	f := m.NewFunc("f", types.I32, p)
+	f.Personality = constant.NewBitCast(pers, types.I8Ptr)
+	entry := f.NewBlock(nm(s.Entry, "e"))
+	csb := f.NewBlock(nm(s.CSBlock, "csb"))
+	hb := f.NewBlock(nm(s.HBlock, "hb"))
+	okb := f.NewBlock(nm(s.OKBlock, "okb"))
+	entry.NewInvoke(vf, nil, okb, csb)
+	cs := csb.NewCatchSwitch(constant.None, []*ir.Block{hb}, nil)
+	cs.SetName(nm(s.CS, "cs"))
+	pad := hb.NewCatchPad(cs, constant.NewNull(types.I8Ptr), constant.NewInt(types.I32, 64), constant.NewNull(types.I8Ptr))
+	pad.SetName(nm(s.Pad, "pad"))
+	hb.NewCatchRet(pad, okb)
+	a := okb.NewAdd(p, constant.NewInt(types.I32, 1))
+	a.SetName(nm(s.Add, "a"))
+	okb.NewRet(a)
+	return m
+}
+
+// c08ehAPI: every funclet shape built through the API must print to what LLVM reads like the model.
+func c08ehAPI(c *fw.Check, id string) {
+	fw.ParallelFor(256, func(mk int) {
+		s := c08ehShape{mk&1 != 0, mk&2 != 0, mk&4 != 0, mk&8 != 0, mk&16 != 0, mk&32 != 0, mk&64 != 0, mk&128 != 0}
+		cs := c08case{Shape: "eh-funclet " + s.String(), Form: "api"}
+		var printed string
+		if p := fw.Try(func() { printed = c08ehBuild(s).String() }); p != "" {
+			cs.What = "building or printing the funclet through the API panics: " + p
+			c.Violation("eh-funclet/api-panics/"+s.String(), cs)
+			return
+		}
+		cs.Text = printed
+		c.Case("eh-api|"+s.String(), printed)
+		if _, errs, pan := parseTry(printed); errs != "" || pan != "" {
+			cs.What = "the library does not read the funclet it printed: " + fw.Trunc(errs+pan, 300)
+			c.Violation("eh-funclet/api-reparse-fails/"+s.String(), cs)
+			return
+		}
+		if !fw.HaveLLVM() {
+			return
+		}
+		ref, e, ok, _ := fw.AsDis(c08ehText(s, "explicit"))
+		if !ok {
+			fw.Fatalf("%s funclet numbering model rejected by LLVM: %s", id, e)
+		}
+		got, e2, ok2, _ := fw.AsDis(printed)
+		if !ok2 {
+			cs.What = "LLVM rejects the numbering printed for an API-built funclet: " + fw.Trunc(e2, 300)
+			c.Violation("eh-funclet/api-llvm-rejects-printed/"+s.String(), cs)
+			return
+		}
+		if o1, o2 := llcanon.Diff(llcanon.Canon(ref), llcanon.Canon(got)); len(o1)+len(o2) > 0 {
+			cs.What = "LLVM reads the API-built funclet differently from the model text"
+			c.Violation("eh-funclet/api-binding-differs/"+s.String(), cs)
+			return
+		}
+		c.Valid(1)
+	})
+	c.Extra["eh_funclet_shapes_api_built"] = 256
+}
 
 // Exception-handling funclets: catchswitch is the third value-producing TERMINATOR (a token) next
 // to invoke and callbr, catchpad/cleanuppad are value-producing instructions. All 2^8 shapes of a
@@ -80,6 +156,7 @@ func c08ehText(s c08ehShape, form string) string {
 }
 
 func c08eh(c *fw.Check) {
+	c08ehAPI(c, "C08")
 	var shapes []c08ehShape
 	for m := 0; m < 256; m++ {
 		shapes = append(shapes, c08ehShape{m&1 != 0, m&2 != 0, m&4 != 0, m&8 != 0, m&16 != 0, m&32 != 0, m&64 != 0, m&128 != 0})
